@@ -1339,8 +1339,17 @@ func hasRangeValidation(w *World, f *ssa.Function, depth int, seen map[*ssa.Func
 			case *ssa.UnOp:
 				// an element of a local array ({lowest, highest} pairs): whatever is stored into
 				// that array, at any position
+				var arr *ssa.Alloc
 				if ia, ok := y.X.(*ssa.IndexAddr); ok && y.Op == token.MUL {
-					if al, ok := ia.X.(*ssa.Alloc); ok && al.Referrers() != nil {
+					arr, _ = ia.X.(*ssa.Alloc)
+				} else if al, ok := y.X.(*ssa.Alloc); ok && y.Op == token.MUL {
+					// the whole array read at once (flags := [2]bool{a > hi, b < lo}; flags != [2]bool{})
+					if _, isArr := al.Type().Underlying().(*types.Pointer).Elem().Underlying().(*types.Array); isArr {
+						arr = al
+					}
+				}
+				if arr != nil {
+					if al := arr; al.Referrers() != nil {
 						for _, ref := range *al.Referrers() {
 							if ia2, ok := ref.(*ssa.IndexAddr); ok && ia2.Referrers() != nil {
 								for _, r2 := range *ia2.Referrers() {
